@@ -264,7 +264,10 @@ func (s *SMF) WriteFile(file string) error {
 
 	//err = s.WriteTo(f)
 	_, err = s.WriteTo(f)
-	f.Close()
+	// a file system may accept every write and report only at close that the data could not be stored
+	if errClose := f.Close(); err == nil {
+		err = errClose
+	}
 
 	if err != nil {
 		os.Remove(file)
